@@ -214,57 +214,93 @@ def run(ctx) -> None:
         tparam = next((p_ for p_ in ini_e.params if p_ == "E_titles"), "E_titles")
 
         def lenv(x):
-            t_ = norm(x).replace(" ", "")
+            t_ = norm(x).replace(" ", "").replace(f"len(list({tparam}))", f"len({tparam})").replace(f"len(tuple({tparam}))", f"len({tparam})")
             if t_ in ("self.N_energies", "len(Energies)", "len(self.Energies)"):
                 return Rat.sym("N")
             if t_ == f"len({tparam})":
                 return Rat.sym("L")
             return None
 
-        def abs_len(e_, at_, conds_):
-            """length of a list expression as a Rat in N (number of energy axes) and L (number of titles given); None if unknown"""
+        NL = Rat.sym("N") - Rat.sym("L")
+
+        def sign_of(d_, case_):
+            """sign (+1 / 0 / −1, with 0 meaning ≤ 0 or ≥ 0 is enough: both operands equal) of a difference under N ≤ L ('le') or N > L ('gt')"""
+            if d_.d.as_const() is not None and d_.as_poly().as_const() is not None:
+                c_ = d_.as_poly().as_const()
+                return (c_ > 0) - (c_ < 0)
+            if d_.equals(NL):
+                return +1 if case_ == "gt" else -1      # N − L ≤ 0: picking the other operand is right (at equality both agree)
+            if d_.equals(Rat.const(0) - NL):
+                return -1 if case_ == "gt" else +1
+            return None
+
+        def count_of(k_, at_, case_):
+            """an integer count as a Rat; min / max of two counts is decided by the case"""
+            k_ = IS_.resolve(k_, at_) if isinstance(k_, ast.Name) else k_
+            if isinstance(k_, ast.Call) and call_name(k_) in ("max", "min") and len(k_.args) == 2 and not k_.keywords:
+                a_, b_ = count_of(k_.args[0], at_, case_), count_of(k_.args[1], at_, case_)
+                if a_ is None or b_ is None:
+                    return None
+                sg = sign_of(a_ - b_, case_)
+                if sg is None:
+                    return None
+                big, small = (a_, b_) if sg >= 0 else (b_, a_)
+                return big if call_name(k_) == "max" else small
+            try:
+                return to_rat(k_, lenv)
+            except AnalysisError:
+                return None
+
+        def abs_len(e_, at_, case_):
+            """length of a list expression as a Rat in N (number of energy axes) and L (number of titles given) under the case
+            N ≤ L ('le') / N > L ('gt'); None if unknown"""
             if isinstance(e_, ast.Name):
                 return Rat.sym("L") if e_.id == tparam else None
             if isinstance(e_, ast.Call) and call_name(e_) in ("list", "tuple") and e_.args:
-                return abs_len(e_.args[0], at_, conds_)
+                return abs_len(e_.args[0], at_, case_)
             if isinstance(e_, ast.List):
                 return Rat.const(len(e_.elts))
             if isinstance(e_, ast.BinOp) and isinstance(e_.op, ast.Add):
-                a_, b_ = abs_len(e_.left, at_, conds_), abs_len(e_.right, at_, conds_)
+                a_, b_ = abs_len(e_.left, at_, case_), abs_len(e_.right, at_, case_)
                 return None if a_ is None or b_ is None else a_ + b_
             if isinstance(e_, ast.BinOp) and isinstance(e_.op, ast.Mult):
                 for l_, k_ in ((e_.left, e_.right), (e_.right, e_.left)):
-                    ll = abs_len(l_, at_, conds_) if isinstance(l_, (ast.List, ast.Name, ast.Call)) else None
+                    ll = abs_len(l_, at_, case_) if isinstance(l_, (ast.List, ast.Call)) or (isinstance(l_, ast.Name) and l_.id == tparam) else None
                     if ll is not None:
-                        try:
-                            return ll * to_rat(k_, lenv)
-                        except AnalysisError:
+                        kk = count_of(k_, at_, case_)
+                        if kk is None:
                             return None
+                        # a negative count gives an empty list
+                        sg = sign_of(kk, case_)
+                        if sg is None:
+                            return None
+                        return ll * kk if sg >= 0 else Rat.const(0)
             if isinstance(e_, ast.Subscript) and isinstance(e_.slice, ast.Slice) and e_.slice.lower is None and e_.slice.step is None and e_.slice.upper is not None:
-                base_ = abs_len(e_.value, at_, conds_)
-                try:
-                    up_ = to_rat(e_.slice.upper, lenv)
-                except AnalysisError:
+                base_ = abs_len(e_.value, at_, case_)
+                up_ = count_of(e_.slice.upper, at_, case_)
+                if base_ is None or up_ is None:
                     return None
-                if base_ is None:
+                sg = sign_of(base_ - up_, case_)
+                if sg is None:
                     return None
-                # min(base, upper): decided by the path conditions
-                if ("N<=L", True) in conds_ or ("L>=N", True) in conds_ or ("N>L", False) in conds_ or ("L<N", False) in conds_:
-                    return up_ if base_.equals(Rat.sym("L")) and up_.equals(Rat.sym("N")) else None
-                return "min"
+                return up_ if sg >= 0 else base_
             return None
         for s_ in tstores:
             cds = []
             for t_, p_, n_ in IS_.conditions(s_, resolve=False):
                 tt = t_.replace(" ", "").replace("self.N_energies", "N").replace(f"len({tparam})", "L")
                 cds.append((tt, p_))
-            ln_ = abs_len(s_.value, IS_.cfg.node(s_), cds)
+            le_ = any(c_ in cds for c_ in (("N<=L", True), ("L>=N", True), ("N>L", False), ("L<N", False)))
+            gt_ = any(c_ in cds for c_ in (("N<=L", False), ("L>=N", False), ("N>L", True), ("L<N", True)))
+            cases_ = ["le"] if le_ else ["gt"] if gt_ else ["le", "gt"]
+            lens_ = [abs_len(s_.value, IS_.cfg.node(s_), c_) for c_ in cases_]
+            ln_ = None if any(l_ is None for l_ in lens_) else next((l_ for l_ in lens_ if not l_.equals(Rat.sym("N"))), lens_[0])
             r1.instance(f"{ini_e.short}: {norm1(s_, 70)}")
             if ln_ is None:
                 r1.expect(False, "", ini_e, s_, f"EnergyResult.__init__: cannot determine the length of `{norm1(s_.value, 70)}`")
             else:
-                r1.check(ln_ != "min" and ln_.equals(Rat.sym("N")), "len(self.E_titles) == N_energies on this path", ini_e, s_,
-                         f"`{norm1(s_, 80)}` leaves self.E_titles with {'min(len(E_titles), N_energies)' if ln_ == 'min' else ln_} entries instead of N_energies: as_dict "
+                r1.check(ln_.equals(Rat.sym("N")), "len(self.E_titles) == N_energies on this path", ini_e, s_,
+                         f"`{norm1(s_, 80)}` leaves self.E_titles with {ln_} entries (N = number of energy axes, L = number of titles given) instead of N: as_dict "
                          f"stores one energy array per axis but from_npz loads one per stored title, so a saved result with fewer titles than energy axes "
                          f"comes back with missing energy axes")
 
